@@ -88,13 +88,12 @@ impl MemfsEntryOpts {
 
         // OR given mode with defaults for physical entries, any file type bits that came along
         // with the mode (e.g. taken from another kind of entry) don't belong to this entry
-        let mode = mode & 0o7777;
         self.mode = if self.link {
-            mode | 0o120000
+            (mode & 0o7777) | 0o120000
         } else if self.file {
-            mode | 0o100000
+            (mode & 0o7777) | 0o100000
         } else if self.dir {
-            mode | 0o40000
+            (mode & 0o7777) | 0o40000
         } else {
             mode
         };
